@@ -419,7 +419,7 @@ PROPS = {
         level_note="Side condition checked syntactically on the tree: the key field is written only inside the three toggle functions, piece sets only inside put/remove. H1 is per draw by nature (each check run sees a fresh draw, the build script runs inside the Kani build). Trusted: Kani/CBMC/CaDiCaL.",
     ),
     "C01": dict(
-        title="Generated moves are exactly the legal moves of chess", jobs=16, jobs_thorough=6, mem_gb=14,
+        title="Generated moves are exactly the legal moves of chess", jobs=16, jobs_thorough=6, mem_gb=14, timeout_thorough=4500,
         technique=TECH + "; compositional: per-stage contracts against independent reference rules + a wiring lemma with all stages stubbed",
         level_text="Bounded model checking, compositional. The whole generator cannot be symbolically executed (measured), so each stage of generate_valid_moves is checked on fully symbolic boards against independent reference rules (en passant, castling conditions, pawn pushes/captures/promotions, leaper tables, slider stage, target expansion, legality filter per move kind), and two wiring lemmas on the real generate_valid_moves / generate_pawn_moves with every stage stubbed show the stages are composed as the argument assumes. The attack map is an arbitrary bitboard in the castle and filter stages; its exactness is discharged by the A1 lemmas and C11.",
         level_note="Never runs two real stages back to back: 'each stage meets its contract' and 'the stages are wired as shown' => 'output is the legal set' is a propositional step. SmallVec's heap-spill path is cut (a spill inside a harness is a reported failure). Boards with >16 pieces or >8 pawns per side are outside the claim. Trusted: Kani/CBMC/CaDiCaL, reference rules.",
@@ -431,7 +431,7 @@ PROPS = {
         level_note="make_table's fill loop is decided on its MIR by z3 for masks of <= 3 bits (one arbitrary square and entry; slider_moves / magic_index uninterpreted there, their contracts are M1/M2); CBMC cannot get through make_table (measured). The generator crate's own functions (precompile) are not encoded: a changed generator is caught through M1 on the draw it produces, which every run regenerates. The build script's search terminating is outside the claim. Trusted: Kani/CBMC/CaDiCaL, z3 4.8.12, the MIR text parser in lib/mirloop.py, reference rays in verif_ref.rs.",
     ),
     "C06": dict(
-        title="Check, checkmate and stalemate verdicts and move annotations are exact", jobs=16,
+        title="Check, checkmate and stalemate verdicts and move annotations are exact", jobs=16, jobs_thorough=8, timeout_thorough=4500,
         technique=TECH + "; verdict functions executed with the generator entry points stubbed by arbitrary results + ghost records of their arguments (wiring lemmas), composed with C01 and the attack-map lemmas",
         level_text="Bounded model checking of the verdict logic: on fully symbolic boards the solver shows in-check <=> king square in the attack map requested for the opponent on this board; checkmate <=> in check and no legal move; stalemate <=> not in check and no legal move; annotation applies the move, classifies the opponent on the successor position, undoes, and stores Checkmate/Check/None accordingly with the board restored. Legal-move emptiness and attack-map exactness are C01's and C11/A1's obligations.",
         level_note="Generator entry points are stubbed (arbitrary results, arguments recorded); 'generators that served earlier queries' is C02's reduction. Trusted: Kani/CBMC/CaDiCaL.",
